@@ -164,6 +164,11 @@ func init() {
 		run: func(g *Gen, c int) ([]string, []string, bool) {
 			o := tableOpts{alpha: alphaHTML, parts: 4, maxCols: 4, maxRows: 6, postAdd: true}
 			t := g.buildTable(o)
+			if g.r.chance(1, 8) {
+				if rows := g.x.tables[idOf(t)].AllRows(); len(rows) > 0 {
+					g.do(fmt.Sprintf("addrow %s R%d", t, g.x.rowID[rows[g.r.n(len(rows))]]))
+				}
+			}
 			w := g.do("wrap html " + t)
 			r := g.r
 			args := ""
